@@ -32,7 +32,7 @@ def takeCloud (d n : Nat) (xs : List BigF) : Except String (List (List BigF) × 
   if d == 0 then return (List.replicate n [], rest) else return (chunk d a, rest)
 
 def allTopkOk (largest : Bool) (rows : List (List BigF)) (kk : Nat) : Bool :=
-  rows.all fun d => topkOk largest d kk (topkStd largest d kk)
+  rows.all fun d => topkOkFast largest d kk (topkStd largest d kk)
 
 def fmtMixed (a : String) (b : String) : String :=
   if a.isEmpty then b else if b.isEmpty then a else a ++ " " ++ b
